@@ -1,4 +1,5 @@
 // pegsim: worker / replay / shrink / show front end of the simulator.
+#include <algorithm>
 #include <chrono>
 #include <cinttypes>
 #include <cstdio>
@@ -19,14 +20,28 @@
 #include "judge.hpp"
 #include "optable.hpp"
 
+// AddressSanitizer stays in its default (fatal) mode: in recover mode it reports each code location only
+// once per process and dies after 25 locations, which would make in-process search blind to repeats.
+// A poisoned access therefore ends the worker; the driver reads the index from the status file,
+// restarts the worker behind it and confirms the index in a fresh process.
 extern "C" __attribute__( ( used, visibility( "default" ) ) ) const char* __asan_default_options()
 {
-   return "halt_on_error=0:detect_leaks=0:exitcode=77:print_summary=0:detect_stack_use_after_return=0:max_malloc_fill_size=0";
+   return "detect_leaks=0:exitcode=77:print_summary=0:detect_stack_use_after_return=0:max_malloc_fill_size=0:abort_on_error=0:handle_abort=1";
 }
+
+namespace
+{
+   volatile std::uint64_t* g_status = nullptr;  // [0] = index being run, [1] = 1 finished / 2 sanitizer report
+}
+void sim_emit_partial();
 
 extern "C" __attribute__( ( used, visibility( "default" ) ) ) void __asan_on_error()
 {
    ++sim::W.asan_hits;
+   if( g_status ) {
+      g_status[ 1 ] = 2;
+   }
+   sim_emit_partial();
 }
 
 namespace
@@ -128,6 +143,59 @@ namespace
       m[ "overflow_errors" ] += f.overflow;
    }
 
+   // aggregates of the current worker; global so that they can be written out when the process is about to die
+   struct RunAgg
+   {
+      std::FILE* res = nullptr;
+      std::map< std::string, std::uint64_t > feat;
+      std::map< std::string, std::uint64_t > foreign;
+      std::set< std::uint32_t > fault_ctx;
+      std::uint64_t runs = 0, discarded = 0, nontrivial = 0, violations = 0, with_faults = 0, fault_free = 0;
+      std::uint64_t events = 0, reader_calls = 0, bytes = 0;
+      std::vector< std::string > samples;
+      std::chrono::steady_clock::time_point t0;
+      bool emitted = false;
+
+      void emit( const char* tag )
+      {
+         if( res == nullptr || emitted ) {
+            return;
+         }
+         emitted = true;
+         const double wall = std::chrono::duration< double >( std::chrono::steady_clock::now() - t0 ).count();
+         std::fprintf( res, "%s {\"runs\":%" PRIu64 ",\"discarded\":%" PRIu64 ",\"nontrivial\":%" PRIu64 ",\"violating_runs\":%" PRIu64 ",\"with_faults\":%" PRIu64 ",\"fault_free\":%" PRIu64 ",\"events\":%" PRIu64 ",\"reader_calls_total\":%" PRIu64 ",\"bytes_delivered\":%" PRIu64 ",\"wall_s\":%.3f",
+                       tag, runs, discarded, nontrivial, violations, with_faults, fault_free, events, reader_calls, bytes, wall );
+         std::fprintf( res, ",\"features\":{" );
+         bool first = true;
+         for( const auto& [ k, val ] : feat ) {
+            std::fprintf( res, "%s\"%s\":%" PRIu64, first ? "" : ",", k.c_str(), val );
+            first = false;
+         }
+         std::fprintf( res, "},\"foreign\":{" );
+         first = true;
+         for( const auto& [ k, val ] : foreign ) {
+            std::fprintf( res, "%s\"%s\":%" PRIu64, first ? "" : ",", k.c_str(), val );
+            first = false;
+         }
+         std::fprintf( res, "},\"fault_contexts\":[" );
+         first = true;
+         for( auto c : fault_ctx ) {
+            std::fprintf( res, "%s%u", first ? "" : ",", c );
+            first = false;
+         }
+         std::fprintf( res, "],\"samples\":[" );
+         first = true;
+         for( const auto& s : samples ) {
+            std::fprintf( res, "%s\"%s\"", first ? "" : ",", json_escape( s ).c_str() );
+            first = false;
+         }
+         std::fprintf( res, "]}\n" );
+         std::fflush( res );
+      }
+   };
+   RunAgg g_agg;
+   std::FILE* g_fp = nullptr;
+
    int cmd_run( const Args& a )
    {
       const std::string check = a.get( "check" );
@@ -138,6 +206,7 @@ namespace
       const std::string out = a.get( "out", "/tmp/pegsim" );
       const bool want_hashes = a.num( "hashes", 0 ) != 0;
       const std::uint64_t max_viol = a.num( "max-violations", 8 );
+      const int only_set = static_cast< int >( a.num( "only-set", 0 ) );
 
       // crash containment: the index being run is always visible in <out>.status
       const std::string status_path = out + ".status";
@@ -149,67 +218,65 @@ namespace
             status = static_cast< volatile std::uint64_t* >( p );
             status[ 0 ] = ~0ULL;
             status[ 1 ] = 0;
+            g_status = status;
          }
       }
-      std::FILE* res = std::fopen( ( out + ".res" ).c_str(), "w" );
-      std::FILE* fp = std::fopen( ( out + ".fp" ).c_str(), "wb" );
+      RunAgg& g = g_agg;
+      g.res = std::fopen( ( out + ".res" ).c_str(), "w" );
+      g_fp = std::fopen( ( out + ".fp" ).c_str(), "wb" );
       std::FILE* hs = want_hashes ? std::fopen( ( out + ".hashes" ).c_str(), "w" ) : nullptr;
-      if( res == nullptr || fp == nullptr ) {
+      if( g.res == nullptr || g_fp == nullptr ) {
          std::fprintf( stderr, "cannot open output files under %s\n", out.c_str() );
          return 3;
       }
-      std::fprintf( res, "SEED %" PRIu64 " check=%s begin=%" PRIu64 " end=%" PRIu64 " stride=%" PRIu64 " offset=%" PRIu64 "\n", seed, check.c_str(), begin, end, stride, offset );
-      std::fflush( res );
-
-      std::map< std::string, std::uint64_t > feat;
-      std::map< std::string, std::uint64_t > foreign;
-      std::set< std::uint32_t > fault_ctx;
-      std::uint64_t runs = 0, discarded = 0, nontrivial = 0, violations = 0, with_faults = 0, fault_free = 0;
-      std::uint64_t events = 0, reader_calls = 0, bytes = 0;
-      std::vector< std::string > samples;
-      const auto t0 = std::chrono::steady_clock::now();
+      std::fprintf( g.res, "SEED %" PRIu64 " check=%s begin=%" PRIu64 " end=%" PRIu64 " stride=%" PRIu64 " offset=%" PRIu64 "\n", seed, check.c_str(), begin, end, stride, offset );
+      std::fflush( g.res );
+      g.t0 = std::chrono::steady_clock::now();
 
       for( std::uint64_t i = begin; i < end; ++i ) {
          if( i % stride != offset ) {
             continue;
          }
+         const Job j = make_job( check, seed, i, thorough );
+         if( !job_runnable( j ) || ( only_set != 0 && int( j.set ) != only_set ) ) {
+            continue;  // another binary runs this index
+         }
          if( status ) {
             status[ 0 ] = i;
          }
-         const Job j = make_job( check, seed, i, thorough );
          const Verdict v = judge( j );
-         ++runs;
-         ( j.with_faults ? with_faults : fault_free ) += 1;
-         events += v.events;
-         reader_calls += v.reader_calls;
-         bytes += v.bytes_delivered;
+         ++g.runs;
+         ( j.with_faults ? g.with_faults : g.fault_free ) += 1;
+         g.events += v.events;
+         g.reader_calls += v.reader_calls;
+         g.bytes += v.bytes_delivered;
          if( hs ) {
             std::fprintf( hs, "%" PRIu64 " %016" PRIx64 "\n", i, v.fingerprint );
          }
          if( v.discarded ) {
-            ++discarded;
+            ++g.discarded;
             continue;
          }
-         add_features( feat, v.f );
+         add_features( g.feat, v.f );
          if( v.f.fault_ctx ) {
-            fault_ctx.insert( v.f.fault_ctx );
+            g.fault_ctx.insert( v.f.fault_ctx );
          }
          if( v.f.nontrivial ) {
-            ++nontrivial;
-            std::fwrite( &v.fingerprint, sizeof( v.fingerprint ), 1, fp );
-            if( samples.size() < 3 && ( samples.empty() || i % 7 == 0 ) ) {
-               samples.push_back( describe_case( j.c ) );
+            ++g.nontrivial;
+            std::fwrite( &v.fingerprint, sizeof( v.fingerprint ), 1, g_fp );
+            if( g.samples.size() < 3 && ( g.samples.empty() || i % 7 == 0 ) ) {
+               g.samples.push_back( describe_case( j.c ) );
             }
          }
          for( const auto& x : v.foreign ) {
-            ++foreign[ x.oracle ];
+            ++g.foreign[ x.oracle ];
          }
          if( !v.own.empty() ) {
-            ++violations;
-            if( violations <= max_viol ) {
+            ++g.violations;
+            if( g.violations <= max_viol ) {
                const auto& x = v.own.front();
-               std::fprintf( res, "V %" PRIu64 " %s %s | %s\n", i, x.oracle.c_str(), x.key.c_str(), x.detail.c_str() );
-               std::fflush( res );
+               std::fprintf( g.res, "V %" PRIu64 " %s %s | %s\n", i, x.oracle.c_str(), x.key.c_str(), x.detail.c_str() );
+               std::fflush( g.res );
             }
          }
       }
@@ -217,36 +284,11 @@ namespace
          status[ 0 ] = ~0ULL;
          status[ 1 ] = 1;  // finished
       }
-      const double wall = std::chrono::duration< double >( std::chrono::steady_clock::now() - t0 ).count();
-      std::fprintf( res, "STATS {\"runs\":%" PRIu64 ",\"discarded\":%" PRIu64 ",\"nontrivial\":%" PRIu64 ",\"violating_runs\":%" PRIu64 ",\"with_faults\":%" PRIu64 ",\"fault_free\":%" PRIu64 ",\"events\":%" PRIu64 ",\"reader_calls_total\":%" PRIu64 ",\"bytes_delivered\":%" PRIu64 ",\"wall_s\":%.3f",
-                    runs, discarded, nontrivial, violations, with_faults, fault_free, events, reader_calls, bytes, wall );
-      std::fprintf( res, ",\"features\":{" );
-      bool first = true;
-      for( const auto& [ k, val ] : feat ) {
-         std::fprintf( res, "%s\"%s\":%" PRIu64, first ? "" : ",", k.c_str(), val );
-         first = false;
-      }
-      std::fprintf( res, "},\"foreign\":{" );
-      first = true;
-      for( const auto& [ k, val ] : foreign ) {
-         std::fprintf( res, "%s\"%s\":%" PRIu64, first ? "" : ",", k.c_str(), val );
-         first = false;
-      }
-      std::fprintf( res, "},\"fault_contexts\":[" );
-      first = true;
-      for( auto c : fault_ctx ) {
-         std::fprintf( res, "%s%u", first ? "" : ",", c );
-         first = false;
-      }
-      std::fprintf( res, "],\"samples\":[" );
-      first = true;
-      for( const auto& s : samples ) {
-         std::fprintf( res, "%s\"%s\"", first ? "" : ",", json_escape( s ).c_str() );
-         first = false;
-      }
-      std::fprintf( res, "]}\n" );
-      std::fclose( res );
-      std::fclose( fp );
+      g.emit( "STATS" );
+      std::fclose( g.res );
+      g.res = nullptr;
+      std::fclose( g_fp );
+      g_fp = nullptr;
       if( hs ) {
          std::fclose( hs );
       }
@@ -288,6 +330,9 @@ namespace
                break;
             }
          }
+      }
+      if( key.empty() && is_fatal_oracle( oracle ) ) {
+         key = ( oracle.find( ".poison" ) != std::string::npos ) ? "asan" : "crash";
       }
       o << "expect_oracle " << oracle << "\n";
       o << "expect_key " << key << "\n";
@@ -336,6 +381,26 @@ namespace
       }
       std::string oracle, key, fpr;
       expectation( text, oracle, key, fpr );
+      if( !job_runnable( j ) ) {
+         std::printf( "NOT-RUNNABLE by this binary (set %d)\n", int( j.set ) );
+         return 4;
+      }
+      if( is_fatal_oracle( oracle ) ) {
+         const int c = judge_forked( j, oracle );
+         const bool poison = oracle.compare( oracle.size() - 7, 7, ".poison" ) == 0;
+         std::printf( "case: %s\n", describe_case( j.c ).c_str() );
+         if( ( poison && c == 77 ) || ( !poison && c == 99 ) ) {
+            std::printf( "REPRODUCED oracle=%s key=%s (the run ends the process: %s)\n", oracle.c_str(), key.c_str(), poison ? "AddressSanitizer report" : "crash" );
+            if( a.num( "dump", 0 ) ) {
+               std::printf( "---- running in-process to show the sanitizer report / crash\n" );
+               std::fflush( stdout );
+               (void)judge( j );
+            }
+            return 1;
+         }
+         std::printf( c == 0 ? "NOT-REPRODUCED (no violation)\n" : "DIFFERENT outcome than recorded (class %d)\n", c );
+         return c == 0 ? 0 : 2;
+      }
       const Verdict v = judge( j );
       print_verdict( j, v );
       if( a.num( "dump", 0 ) ) {
@@ -373,6 +438,30 @@ namespace
       const bool thorough = a.get( "tier", "quick" ) == "thorough";
       const std::string out = a.get( "out", "/tmp/pegsim.replay" );
       Job j = make_job( check, seed, index, thorough );
+      if( !job_runnable( j ) ) {
+         std::printf( "NOT-RUNNABLE by this binary (set %d)\n", int( j.set ) );
+         return 4;
+      }
+      const std::string want = a.get( "oracle" );
+      if( is_fatal_oracle( want ) ) {
+         const bool poison = want.compare( want.size() - 7, 7, ".poison" ) == 0;
+         const int c0 = judge_forked( j, want );
+         if( !( ( poison && c0 == 77 ) || ( !poison && c0 == 99 ) ) ) {
+            std::printf( "NO-VIOLATION at index %" PRIu64 " (class %d)\n", index, c0 );
+            return 0;
+         }
+         if( judge_forked( j, want ) != c0 ) {
+            std::printf( "NONDETERMINISTIC outcome at index %" PRIu64 "\n", index );
+            return 2;
+         }
+         unsigned reruns = 0;
+         const Job m = shrink_job( j, want, reruns );
+         Verdict none;
+         write_replay( out, m, none, want, seed, index, reruns );
+         std::printf( "SHRUNK oracle=%s reruns=%u replay=%s\n", want.c_str(), reruns, out.c_str() );
+         std::printf( "case: %s\n", describe_case( m.c ).c_str() );
+         return 1;
+      }
       const Verdict v0 = judge( j );
       if( v0.own.empty() ) {
          std::printf( "NO-VIOLATION at index %" PRIu64 "\n", index );
@@ -398,16 +487,41 @@ namespace
    {
       const std::string check = a.get( "check" );
       const std::uint64_t seed = a.num( "seed", 1 ), index = a.num( "index", 0 );
-      const Job j = make_job( check, seed, index, false );
+      const bool thorough = a.get( "tier", "quick" ) == "thorough";
+      const Job j = make_job( check, seed, index, thorough );
       std::printf( "%s", job_to_text( j ).c_str() );
+      if( !job_runnable( j ) ) {
+         std::printf( "NOT-RUNNABLE by this binary (set %d)\n", int( j.set ) );
+         return 4;
+      }
+      if( a.num( "text-only", 0 ) ) {
+         return 0;
+      }
+      const int c = judge_forked( j, "-" );
+      if( c == 77 || c == 99 ) {
+         std::printf( "case: %s\nthe run ends the process (%s)\n", describe_case( j.c ).c_str(), c == 77 ? "AddressSanitizer report" : "crash" );
+         return 0;
+      }
       const Verdict v = judge( j );
       print_verdict( j, v );
       if( a.num( "dump", 0 ) ) {
+         if( j.mode == MODE_EQUAL ) {
+            std::printf( "---- reference history\n%s", dump_history( run_case( SET_MEM, j.c ) ).c_str() );
+         }
          std::printf( "---- history (set %d)\n%s", int( j.set ), dump_history( run_case( j.set, j.c ) ).c_str() );
       }
       return 0;
    }
 }  // namespace
+
+void sim_emit_partial()
+{
+   // the process is about to end inside a run: keep what the finished runs of this worker established
+   g_agg.emit( "PARTIAL" );
+   if( g_fp ) {
+      std::fflush( g_fp );
+   }
+}
 
 int main( int argc, char** argv )
 {
@@ -438,6 +552,21 @@ int main( int argc, char** argv )
    }
    if( cmd == "show" ) {
       return cmd_show( a );
+   }
+   if( cmd == "merge-fp" ) {
+      // number of distinct fingerprints over the given files
+      std::vector< std::uint64_t > all;
+      for( const auto& f : a.pos ) {
+         std::ifstream in( f, std::ios::binary );
+         std::uint64_t v;
+         while( in.read( reinterpret_cast< char* >( &v ), sizeof( v ) ) ) {
+            all.push_back( v );
+         }
+      }
+      std::sort( all.begin(), all.end() );
+      all.erase( std::unique( all.begin(), all.end() ), all.end() );
+      std::printf( "%zu\n", all.size() );
+      return 0;
    }
    std::fprintf( stderr, "unknown command %s\n", cmd.c_str() );
    return 3;
